@@ -47,7 +47,7 @@ package keeper
 
 // Ordinary (non cross-chain) contracts and the common bookkeeping.
 //@ func Keeper.CreateHTLC
-//@   property C03, C04
+//@   property C03, C04, C13
 //@   returns id, err
 //@   requires height >= 0 && timeLock <= 34560
 //@   requires allSupWF && paramsValid && escrowInv && countersInv
@@ -57,6 +57,7 @@ package keeper
 //@   ensures @C04 keeps_escrow:   err == nil ==> bal(MOD, anydenom(1)) == ESC(htlcs, anydenom(1))
 //@   ensures @C04 keeps_counters: err == nil ==> CIN(anydenom(1)) == INC(htlcs, anydenom(1)) && COUT(anydenom(1)) == OUT(htlcs, anydenom(1))
 //@   ensures @C04 keeps_wf:       err == nil ==> allSupWF
+//@   ensures @C13 keeps_queue:    err == nil && old(queueInv) ==> queueInv
 //@   ensures id_of:  id == types.GetID(sender, to, amount, hashLock)
 //@   ensures duplicate_rejected: old(has(htlcs, id)) ==> err != nil
 //@   ensures opened: err == nil ==> !old(has(htlcs, id)) && has(htlcs, id) && get(htlcs, id).State == OPEN
@@ -69,7 +70,7 @@ package keeper
 //@ end
 
 //@ func Keeper.ClaimHTLC
-//@   property C03, C04
+//@   property C03, C04, C13
 //@   returns hashLock, transfer, dir, err
 //@   let h = get(htlcs, id)
 //@   requires height >= 0
@@ -79,6 +80,7 @@ package keeper
 //@   ensures @C04 keeps_escrow:   err == nil ==> bal(MOD, anydenom(1)) == ESC(htlcs, anydenom(1))
 //@   ensures @C04 keeps_counters: err == nil ==> CIN(anydenom(1)) == INC(htlcs, anydenom(1)) && COUT(anydenom(1)) == OUT(htlcs, anydenom(1))
 //@   ensures @C04 keeps_wf:       err == nil ==> allSupWF
+//@   ensures @C13 keeps_queue:    err == nil && old(queueInv) ==> queueInv
 //@   ensures only_open: err == nil ==> old(has(htlcs, id)) && h.State == OPEN
 //@   ensures preimage:  err == nil ==> types.GetHashLock(secret, h.Timestamp) == unhex(h.HashLock)
 //@   ensures wrong_secret_rejected: types.GetHashLock(secret, h.Timestamp) != unhex(h.HashLock) ==> err != nil
@@ -100,6 +102,7 @@ package keeper
 //@   lemma @return sumsUpd(old(htlcs), id, get(htlcs, id), anydenom(1)) if err == nil
 //@   ensures @C03,C04,C13 never_fails: err == nil
 //@   ensures @C04,C13 keeps_recwf: err == nil ==> allRecWF
+//@   ensures @C04,C13 elapsed_kept: err == nil ==> (forall d:Str :: has(supplies, d) == old(has(supplies, d)) && SUP(d).TimeElapsed == old(SUP(d).TimeElapsed))
 //@   nopanic C13
 //@   ensures @C04 keeps_escrow:   err == nil ==> bal(MOD, anydenom(1)) == ESC(htlcs, anydenom(1))
 //@   ensures @C04 keeps_counters: err == nil ==> CIN(anydenom(1)) == INC(htlcs, anydenom(1)) && COUT(anydenom(1)) == OUT(htlcs, anydenom(1))
@@ -324,6 +327,8 @@ package keeper
 //@   invariant #1 escrow:   escrowInv
 //@   invariant #1 counters: countersInv
 //@   invariant #1 recwf:    allRecWF
+//@   invariant #1 ptime:    prevTime == old(prevTime)
+//@   invariant #1 elapsed:  forall d:Str :: has(supplies, d) == old(has(supplies, d)) && SUP(d).TimeElapsed == old(SUP(d).TimeElapsed)
 //@   invariant #1 todo:  forall j:Int :: it_idx <= j && j < it_n ==> has(htlcs, it_seq[j].k1) && get(htlcs, it_seq[j].k1).State == OPEN
 //@                       && get(htlcs, it_seq[j].k1) == old(get(htlcs, it_seq[j].k1)) && has(queue, height, it_seq[j].k1)
 //@   invariant #1 done:  forall j:Int :: 0 <= j && j < it_idx ==> get(htlcs, it_seq[j].k1).State == REFUNDED && !has(queue, height, it_seq[j].k1)
